@@ -31,6 +31,15 @@ def big(r, n):
     return (blk * (n // 61 + 1))[:n]
 
 
+def selfsimilar(r):
+    """content that looks like framing itself: a DER SEQUENCE header (right, short and long declared length), a TLS record /
+    handshake / extension header, big-endian length prefixes, a DNS wire name - followed by more or fewer bytes than it declares"""
+    pre = r.choice([b'\x30\x82\x00\x04', b'\x30\x82\x01\x00', b'\x30\x81\x05', b'\x30\x80', b'\x16\x03\x03\x00\x02', b'\x17\x03\x01\xff\xff',
+                    b'\x01\x00\x00\x03', b'\x0b\x00\x00\x00', b'\x00\x00\x00\x05', b'\x00\x05', b'\x05', b'\x00', b'\xff\xff\xff', b'\x03www\x07example\x03com\x00',
+                    b'\x00\x00\x00\x0b\x00\x09\x00\x00\x06'])
+    return pre + r.bytes(r.choice([0, 1, 3, 4, 5, 9, 40]))
+
+
 def repeats(r, xs):
     """list-valued arguments with equal elements: adjacent, separated, all equal"""
     if not xs or not r.chance(1, 3): return xs
@@ -44,6 +53,7 @@ def repeats(r, xs):
 def parts_of(r, total, n):
     cuts = sorted(r.below(total + 1) for _ in range(n - 1)) if n > 1 else []
     data = r.bytes(total)
+    if total and r.chance(1, 5): data = (selfsimilar(r) + data)[:total]
     out, prev = [], 0
     for cpos in cuts + [total]:
         out.append(data[prev:cpos]); prev = cpos
@@ -109,6 +119,7 @@ def campaign(c):
             fn, kind, fld = ('tls::sni', 'sni', 'names') if k == 8 else ('tls::certificates', 'certs', 'certs')
             items = [r.choice([r.bytes(r.choice([0, 1, 10, 255, 256, 1000])), b'www.example.com.', b'.', b'a.', b'..', b'x' * r.below(5) + b'.']) for _ in range(r.below(4))]
             items = repeats(r, items)
+            if r.chance(1, 3): items = [selfsimilar(r) if r.chance(2, 3) else x for x in (items or [b''])] + ([selfsimilar(r)] if r.chance(1, 2) else [])
             if k == 9 and r.chance(1, 4):
                 # 24-bit lengths beyond 16 bits: one big certificate, or a chain whose entries are each below 64 KiB
                 items = r.choice([[big(r, 65530)], [big(r, 65535)], [big(r, 65536)], [big(r, 40000), big(r, 30000), b'tail!'], [b'x', big(r, 70000)], [big(r, 65527), b'']])
@@ -121,7 +132,7 @@ def campaign(c):
         elif k in (10, 11):  # hellos with every present/absent combination
             client = k == 10
             sid = r.bytes(r.choice([0, 1, 32])); comp = r.bytes(r.choice([0, 1, 2])); ids = repeats(r, [r.below(65536) for _ in range(r.below(4))])
-            exts = repeats(r, [(r.below(65536), r.bytes(r.choice([0, 1, 5, 300]))) for _ in range(r.below(3))])
+            exts = repeats(r, [(r.below(65536), r.bytes(r.choice([0, 1, 5, 300])) if r.chance(4, 5) else selfsimilar(r)) for _ in range(r.below(3))])
             if r.chance(1, 8):   # an extension block of (almost) 64 KiB: the hello needs all 24 bits of its handshake length
                 exts = r.choice([[(r.below(65536), big(r, 65531))], [(1, big(r, 30000)), (2, big(r, 35000))], [(7, big(r, 65000)), (8, b'ab')]])
             empties = r.choice([0, 0, 1, 2])          # extension arguments that are empty byte strings
